@@ -90,6 +90,8 @@ func (e *Engine) resolveType(pkg *types.Package, te TypeExpr) types.Type {
 		return types.NewSlice(e.resolveType(pkg, *te.Elem))
 	case "map":
 		return types.NewMap(e.resolveType(pkg, *te.Key), e.resolveType(pkg, *te.Elem))
+	case "array":
+		return &logicalArray{key: e.resolveType(pkg, *te.Key), elem: e.resolveType(pkg, *te.Elem)}
 	}
 	if te.Pkg == "" {
 		if t, ok := basicTypes[te.Name]; ok {
@@ -141,8 +143,17 @@ func (r *Run) sortOfSpecType(T types.Type) string {
 	if b, ok := T.(*types.Basic); ok && b.Kind() == types.UntypedInt {
 		return "Int"
 	}
+	if la, ok := T.(*logicalArray); ok {
+		return arraySort(r.sortOfSpecType(la.key), r.sortOfSpecType(la.elem))
+	}
 	return r.eng.u.sortOf(T)
 }
+
+// logicalArray is a specification-only type: a total map (SMT array) from key to elem.
+type logicalArray struct{ key, elem types.Type }
+
+func (l *logicalArray) Underlying() types.Type { return l }
+func (l *logicalArray) String() string         { return "Array[" + l.key.String() + "]" + l.elem.String() }
 
 func (r *Run) eval(env *SpecEnv, e Expr) SV {
 	u := r.eng.u
@@ -399,6 +410,9 @@ func (r *Run) evalIndex(env *SpecEnv, x EIndex) SV {
 		// logical array
 		return SV{t: sel(base.t, idx.t)}
 	}
+	if la, ok := base.T.(*logicalArray); ok {
+		return SV{t: sel(base.t, idx.t), T: la.elem}
+	}
 	switch bt := types.Unalias(base.T).Underlying().(type) {
 	case *types.Slice:
 		A := r.heapGet(env.cur, r.eng.heapKeyArr(bt.Elem()))
@@ -628,6 +642,11 @@ func (r *Run) evalCall(env *SpecEnv, x ECall) SV {
 		}
 		k := r.eval(env, x.Args[0])
 		return SV{t: sel(r.heapGet(env.cur, env.curIter()), k.t), T: types.Typ[types.Bool]}
+	case "store":
+		a := r.eval(env, x.Args[0])
+		i := r.eval(env, x.Args[1])
+		v := r.eval(env, x.Args[2])
+		return SV{t: store(a.t, i.t, v.t), T: a.T}
 	case "zero":
 		T := r.specTypeArg(env, x.Args[0])
 		return SV{t: u.zeroOf(T), T: T}
